@@ -14,7 +14,7 @@ META = {
     "outside": "inputs longer than the stated N; more than the listed command codes in the quick tier",
     "assumptions": ["termination is observed per path: a path that hits per_path_timeout is reported "
                     "as unknown (partition incomplete), never as success"],
-    "wall_budget_s": {"quick": 270, "thorough": 1500},
+    "wall_budget_s": {"quick": 270, "thorough": 840},
 }
 
 
